@@ -6,7 +6,7 @@ ALL = [f'C{i:02d}' for i in range(1, 21)]
 checks, na = [], []
 for pid in ALL:
     path = f'harness/props/{pid.lower()}.py'
-    if not os.path.exists(path):
+    if not os.path.exists(path) or not os.path.exists(f'lean/PanqecVerif/Properties/{pid}.lean'):
         na.append({'property_id': pid, 'reason': 'check under construction in this session (see DESIGN.md section 9 build order); not yet claimed'})
         continue
     src = open(path).read()
